@@ -99,6 +99,7 @@ type Config struct {
 	BudgetS     int
 	FreeSched   bool
 	Thorough    bool
+	MaxTimerFires int
 	Known       []string
 	Seed        int
 	Verbose     bool
@@ -152,6 +153,8 @@ type Machine struct {
 	clock       *Term
 	ghost       map[string]Value
 	elemOf      map[*Value]elemRef
+	timerFires  int
+	exitChecks  []exitCheck
 	obsNames    []string
 	obsTerms    []*Term
 	accessLog   *raceLog
@@ -277,6 +280,8 @@ func (m *Machine) runPath(prefix []int) {
 	m.obsNames = nil
 	m.obsTerms = nil
 	m.elemOf = map[*Value]elemRef{}
+	m.timerFires = 0
+	m.exitChecks = nil
 	m.accessLog = nil
 	m.localChecks = map[string]*CheckStat{}
 	m.outcome = PathOutcome{Kind: "ok"}
